@@ -19,7 +19,18 @@ import traceback
 from pgverif import core
 
 ROOT = os.path.dirname(os.path.dirname(os.path.abspath(__file__)))
-CASE_TIMEOUT_S = 60
+CASE_TIMEOUT_S = 60          # per case, in CPU seconds of the process (independent of how loaded the machine is)
+CASE_WALL_LIMIT_S = 600      # wall-clock guard against a case that blocks without using the CPU
+
+
+def _arm_case_timers():
+  signal.setitimer(signal.ITIMER_PROF, CASE_TIMEOUT_S)
+  signal.setitimer(signal.ITIMER_REAL, CASE_WALL_LIMIT_S)
+
+
+def _disarm_case_timers():
+  signal.setitimer(signal.ITIMER_PROF, 0)
+  signal.setitimer(signal.ITIMER_REAL, 0)
 
 
 class CaseTimeout(BaseException):
@@ -70,7 +81,7 @@ class Collector:
   def handle(self, case, source='generated'):
     case = core.canon(case)
     self.evaluations += 1
-    signal.setitimer(signal.ITIMER_REAL, CASE_TIMEOUT_S)
+    _arm_case_timers()
     t_case = time.time()
     try:
       res = self.mod.execute(case)
@@ -98,7 +109,7 @@ class Collector:
                             'trace': traceback.format_exc()[-3000:]})
         return None
     finally:
-      signal.setitimer(signal.ITIMER_REAL, 0)
+      _disarm_case_timers()
       dt = time.time() - t_case
       if dt > self.slowest[0]:
         self.slowest = (dt, case)
@@ -152,6 +163,7 @@ class Collector:
 def run_shard(args):
   pid, tier, seed, shard, nshards, n_examples, active = args
   signal.signal(signal.SIGALRM, _alarm)
+  signal.signal(signal.SIGPROF, _alarm)
   sys.setrecursionlimit(3000)
   try:
     mod = load_module(pid)
@@ -188,11 +200,12 @@ def run_shard(args):
 def _shrink_job(args):
   pid, key, case, active = args
   signal.signal(signal.SIGALRM, _alarm)
+  signal.signal(signal.SIGPROF, _alarm)
   sys.setrecursionlimit(3000)
   mod = load_module(pid)
 
   def still_fails(c):
-    signal.setitimer(signal.ITIMER_REAL, CASE_TIMEOUT_S)
+    _arm_case_timers()
     try:
       res = mod.execute(core.canon(c))
     except CaseTimeout:
@@ -202,7 +215,7 @@ def _shrink_job(args):
     except Exception:   # pylint: disable=broad-except
       return False
     finally:
-      signal.setitimer(signal.ITIMER_REAL, 0)
+      _disarm_case_timers()
     return any(core.sig_key(s) == key for s, _ in res.violations)
   best, evals = core.shrink(case, still_fails)
   return key, best, evals
@@ -243,6 +256,7 @@ def main(argv=None):
   seed = int(os.environ.get('VERIF_SEED', '1') or '1')
   t0 = time.time()
   signal.signal(signal.SIGALRM, _alarm)
+  signal.signal(signal.SIGPROF, _alarm)
   sys.setrecursionlimit(3000)
   try:
     mod = load_module(pid)
@@ -337,7 +351,7 @@ def main(argv=None):
   # to cause it); many of them, or any other exception, is a harness error.
   timeouts = [e for e in errors if e['kind'] == 'timeout']
   n_timeouts = len(timeouts)
-  if timeouts and n_timeouts <= max(2, evaluations // 1000) and n_timeouts == len(errors):
+  if timeouts and n_timeouts <= max(2, evaluations // 100) and n_timeouts == len(errors):
     os.makedirs(os.path.join(ROOT, 'replays', pid), exist_ok=True)
     with open(os.path.join(ROOT, 'replays', pid, 'inconclusive_timeout.json'), 'w') as f:
       json.dump({'property': pid, 'case': timeouts[0]['case'], 'kind': 'timeout'}, f, indent=1)
